@@ -498,7 +498,8 @@ fn main() {
                 } else {
                     json!({"kind": "ok"})
                 };
-                let line = json!({"i": i, "kind": c.kind, "accepted": accepted, "pt": ptj, "lib": lib, "libv": libv, "evaluated": evaluated});
+                let h = gv::xform::digest(&format!("{}\u{0}{}", c.rules, c.data));
+                let line = json!({"i": i, "kind": c.kind, "accepted": accepted, "pt": ptj, "lib": lib, "libv": libv, "evaluated": evaluated, "h": h});
                 writeln!(f, "{}", line).unwrap();
                 f.flush().unwrap();
             }
